@@ -498,6 +498,20 @@ def model_runs(check, scratch, which):
         check.add_model_run(name, r)
         if r.invariants_violated:
             check.error('%s: invariant violated %s' % (name, r.invariants_violated))
+    # the variants the code does NOT have any more (each one a defect of the pinned tree, repaired): the invariant that caught it must fail
+    pinned = [('faults', 'EnterSafe=FALSE (failing getter while entering: e7c597d)', 'Scen_R', {1}, {'W', 'S'}, True, dict(EnterSafe=False), 'C16_Restored'),
+              ('faults', 'SaveMode=read (descriptor entry replaced: be1e47f)', 'Scen_R', {1}, {'S'}, False, dict(SaveMode='read'), 'C16_Restored'),
+              ('threads', 'GuardMode=shared (guard shared between threads: 80727b8)', 'Scen_FF', {1, 2}, {'W'}, False, dict(GuardMode='shared'), 'C17_Sequential')]
+    for w, label, scen, th, a0, faults, over, inv in pinned:
+        if w != which:
+            continue
+        const = dict(Threads=th, Kind=tlc.Subst(scen), Attrs0=a0, Faults=faults, EnterSafe=True, GuardMode='threadlocal', SaveMode='raw', Descr={'S'})
+        const.update(over)
+        cfg = tlc.write_cfg(os.path.join(d, 'Retrieval-pinned-%s.cfg' % label.split('=')[0]), spec='Spec', invariants=[inv], constants=const)
+        r = tlc.run_tlc('Retrieval', cfg, scratch, workers=2, timeout=600)
+        check.legs['Retrieval(%s): %s expected to fail' % (label, inv)] = {'distinct': r.distinct, 'violated': bool(r.invariants_violated)}
+        if not r.invariants_violated:
+            check.error('Retrieval(%s): %s was expected to be violated' % (label, inv))
     if which == 'threads':
         # the concurrent configurations run without faults (crash points are C16's): the failing successors are disabled by design
         check.untaken_ok = {'Retrieval!GComputeFails', 'Retrieval!ReadFails', 'Retrieval!SaveFails'}
